@@ -71,13 +71,107 @@ func (m *Mutex) Unlock() {
 	}
 }
 
-// RWMutex is modelled as an exclusive lock (reader/reader overlap is not explored).
-type RWMutex struct{ m Mutex }
+// RWMutex follows sync.RWMutex: any number of readers or one writer, and a
+// blocked Lock excludes new readers (so a goroutine that read-locks twice
+// deadlocks once a writer is waiting in between, as with the real one). State
+// changes are broadcast by closing a channel made inside the current bubble, so
+// that waiting is durable for synctest; every operation is a scheduling point.
+type RWMutex struct {
+	mu             sync.Mutex // never held across a blocking operation or a Point
+	epoch          uint64
+	readers        int
+	writer         bool
+	writersWaiting int
+	cond           chan struct{}
+}
 
-func (m *RWMutex) Lock()    { m.m.Lock() }
-func (m *RWMutex) Unlock()  { m.m.Unlock() }
-func (m *RWMutex) RLock()   { m.m.Lock() }
-func (m *RWMutex) RUnlock() { m.m.Unlock() }
+// sync resets a lock that outlived the execution it was used in; mu must be held.
+func (m *RWMutex) sync() {
+	if e := vsched.Epoch(); m.cond == nil || m.epoch != e {
+		m.epoch, m.readers, m.writer, m.writersWaiting = e, 0, false, 0
+		m.cond = make(chan struct{})
+	}
+}
+
+func (m *RWMutex) broadcast() {
+	close(m.cond)
+	m.cond = make(chan struct{})
+}
+
+func (m *RWMutex) RLock() {
+	vsched.Point("rwmutex.RLock")
+	for {
+		m.mu.Lock()
+		m.sync()
+		if !m.writer && m.writersWaiting == 0 {
+			m.readers++
+			m.mu.Unlock()
+			return
+		}
+		c := m.cond
+		m.mu.Unlock()
+		<-c
+		vsched.Point("rwmutex.RLock:woke")
+	}
+}
+
+func (m *RWMutex) RUnlock() {
+	vsched.Point("rwmutex.RUnlock")
+	m.mu.Lock()
+	m.sync()
+	if m.readers <= 0 {
+		m.mu.Unlock()
+		panic("vsync: RUnlock of unlocked RWMutex")
+	}
+	m.readers--
+	m.broadcast()
+	m.mu.Unlock()
+}
+
+func (m *RWMutex) Lock() {
+	vsched.Point("rwmutex.Lock")
+	m.mu.Lock()
+	m.sync()
+	m.writersWaiting++
+	for {
+		if !m.writer && m.readers == 0 {
+			m.writersWaiting--
+			m.writer = true
+			m.mu.Unlock()
+			return
+		}
+		c := m.cond
+		m.mu.Unlock()
+		<-c
+		vsched.Point("rwmutex.Lock:woke")
+		m.mu.Lock()
+		if m.epoch != vsched.Epoch() {
+			// The execution this wait belonged to is over (goroutine being torn down).
+			m.mu.Unlock()
+			return
+		}
+	}
+}
+
+func (m *RWMutex) Unlock() {
+	vsched.Point("rwmutex.Unlock")
+	m.mu.Lock()
+	m.sync()
+	if !m.writer {
+		m.mu.Unlock()
+		panic("vsync: Unlock of unlocked RWMutex")
+	}
+	m.writer = false
+	m.broadcast()
+	m.mu.Unlock()
+}
+
+func (m *RWMutex) RLocker() Locker { return rlocker{m} }
+
+type rlocker struct{ m *RWMutex }
+
+func (r rlocker) Lock()   { r.m.RLock() }
+func (r rlocker) Unlock() { r.m.RUnlock() }
 
 // Once: the first caller runs f while holding the lock; others wait for it.
 type Once struct {
